@@ -87,6 +87,14 @@ def run(shard, rec):
         ca, cb = gen(la), gen(lb)
         if ci % 5 == 4:
             cb = list(ca[:lb]) + [0] * max(0, lb - la)    # related operands: equal or prefix
+        if ci % 5 == 3 and la >= 3 and lb >= 3:
+            # operands with a common factor of degree 1 or 2 (zero padded to the chosen lengths)
+            dg = rng.choice([1, 1, 2])
+            g0 = [rng.randrange(p) for _ in range(dg)] + [1]
+            fa = [rng.randrange(p) for _ in range(rng.randint(0, la - 1 - dg))] + [rng.randrange(1, p)]
+            fb = [rng.randrange(p) for _ in range(rng.randint(0, lb - 1 - dg))] + [rng.randrange(1, p)]
+            ca = (ref.pmul(g0, fa, p) + [0] * la)[:la]
+            cb = (ref.pmul(g0, fb, p) + [0] * lb)[:lb]
         a, b = P(ca), P(cb)
         A, B = ref.ptrim(ca), ref.ptrim(cb)
         for fam in FAMILIES:
@@ -124,8 +132,8 @@ def run(shard, rec):
                     add('degree_zero', lambda f, g, mpc, F: (f * g - g * f).degree(), -1, 'scalar')
                     for i in (0, 1, 2, 5, 9):
                         add(f'getitem{i}', lambda f, g, mpc, F, i=i: f[i], int(a[i]) if i <= a.degree() else 0, 'scalar')
+                    add('monic', lambda f, g, mpc, F: f.monic(), a.monic() if A else a)          # documented: the zero polynomial remains unchanged
                     if A:
-                        add('monic', lambda f, g, mpc, F: f.monic(), a.monic())
                         crosscheck('monic', a.monic(), ref.pmonic(A, p), case)
                     add('pow3', lambda f, g, mpc, F: f ** 3, a * a * a)
                     add('pow0', lambda f, g, mpc, F: f ** 0, poly(1))
@@ -278,7 +286,17 @@ def run(shard, rec):
                             okv = (int(got) - int(expected)) % p == 0
                         if not okv:
                             bad = bad or (name, got, expected)
-                            rec.violation(f'{shard["name"]} {fam}.{name}: a={ca} b={cb}: party {pid} obtained {got}, gfpx gives {expected}', dict(feats, mechanism='wrong-result', op=name), {'case': case}, case=case)
+                            extra_f = {}
+                            if name in ('gcdext1', 'gcdext2'):
+                                # Bezout cofactors are only unique for coprime operands: say whether the secure triple is at least a valid one
+                                gd = {n_: g_ for (n_, _, _, _), (g_, _) in zip(ops, r)}
+                                try:
+                                    valid = all(k in gd for k in ('gcdext0', 'gcdext1', 'gcdext2')) and (gd['gcdext1'] * a + gd['gcdext2'] * b == gd['gcdext0']) and as_list(gd['gcdext0']) == as_list(poly.gcd(a, b))
+                                except Exception:
+                                    valid = False
+                                extra_f = {'bezout_identity_holds': bool(valid), 'gcd_degree_ge_1': poly.gcd(a, b).degree() >= 1}
+                            rec.violation(f'{shard["name"]} {fam}.{name}: a={ca} b={cb}: party {pid} obtained {got}, gfpx gives {expected}' + (f' (the secure triple satisfies s*a + t*b = gcd: {extra_f["bezout_identity_holds"]})' if extra_f else ''),
+                                          dict(feats, mechanism='wrong-result', op=name, **extra_f), {'case': case}, case=case)
                         if L is not None and pid == 0:
                             lengths.setdefault((name, la, lb) + ((len(A), len(B)) if 'plain' in name else ()), {}).setdefault(L, [ca, cb])
                     if bad:
